@@ -580,7 +580,7 @@ func c07(args []string) int {
 		}
 	}
 	// random chains
-	n := f.N(1500, 100000)
+	n := f.N(1500, 1500000)
 	for c := 0; c < n; c++ {
 		idx++
 		if !f.Mine(idx) {
